@@ -24,6 +24,7 @@ import (
 	"strings"
 	"sync"
 	"time"
+	"unicode/utf8"
 
 	"github.com/twmb/franz-go/pkg/kmsg"
 
@@ -805,8 +806,20 @@ func parseGroupPhase(state string) groupPhase {
 	}
 }
 
+// maxMemberIDPrefix bounds the group-derived part of a generated member id so
+// that the id fits a Kafka STRING (int16 length) whatever the group id is.
+const maxMemberIDPrefix = 255
+
 func (c *GroupCoordinator) newMemberID(group string) string {
-	return fmt.Sprintf("%s-%d", group, rand.Int63())
+	prefix := group
+	if len(prefix) > maxMemberIDPrefix {
+		n := maxMemberIDPrefix
+		for n > 0 && !utf8.RuneStart(prefix[n]) {
+			n--
+		}
+		prefix = prefix[:n]
+	}
+	return fmt.Sprintf("%s-%d", prefix, rand.Int63())
 }
 
 func (c *GroupCoordinator) parseSubscriptionTopics(protocols []kmsg.JoinGroupRequestProtocol) []string {
